@@ -397,6 +397,16 @@ theorem sampleN_rows (w n : Nat) (masks : List (Nat → Bool)) (sel : List Nat)
     · have := all_range hd b hb
       rwa [sampleNRows_eq] at this
 
+/-- **C12 `fjsp_starts_rows`**: the forced starts of `FJSPEnv` / `JSSPEnv.select_start_nodes` (which delegates to
+`sample_n_random_actions`, extracted) found at rows `j·B + b` are feasible actions of instance `b`, and pairwise
+distinct whenever every instance of the batch has at least `n` feasible first actions (no replacement). -/
+theorem fjsp_starts_rows (w n : Nat) (masks : List (Nat → Bool)) (sel : List Nat)
+    (hok : fjspStartsOk w n masks sel = true) (b : Nat) (hb : b < masks.length) :
+    (∀ s ∈ instStarts masks.length n b sel, s < w ∧ (masks.getD b (fun _ => false)) s = true) ∧
+    (sampleNReplace w n masks = false → nodupB (instStarts masks.length n b sel) = true) := by
+  simp only [fjspStartsOk, Params.fjspStartsDelegate, if_true] at hok
+  exact sampleN_rows w n masks sel hok b hb
+
 /-! ### best-of-k selection -/
 
 /-- what is assumed of the tie-breaking of `Tensor.max(dim)`: it returns *an* index of a maximum -/
